@@ -4,9 +4,21 @@
      spec <10 fields> / cid <10 fields>       (appended to the spec / identifier tables)
      matrix                                   -> one line per spec: m <outcome per cid: 1 0 p u>
      reset                                    (clears the tables)
+     site <form> <kind> <parent> <instr> <reg> <calleePkg> <calleeName> <calleeRecv> <ifaceType> <addrTaken> <wrapper> <n> (<pkg> <name> <recv>)*
+     rawsite                                  (a call without generator knowledge: only its facts are known)
+     facts <kind> <parent> <instr> <isInvoke> <valueName> <valueType> <methodName> <calleePkg -|+p> <sigRecv> <n> (<-|+p> <name>)*
+                                              -> facts ok | facts diff <model facts>     (compares with factsOf of the last site)
+     cids entry <withPtr> | cids sink <-|+calleePkg> | cids argat <site index> <-|+pnf> <summary fn pkg> <name> <full> <hasSummary>
+                                              -> c <identifier>*    (for the last site, from its facts)
+     node <nk> <parent> <field> <declPath> <ty tokens…> / nodefacts <-|+pkgName> <typeName>  -> nodefacts ok|diff
+     cids node                                -> c <identifier>*
+     entrymatrix                              -> per site: e <model> <truth> <domain>   (one char per spec)
+     pair <site index> <-|+PackageNameFromFunction(callee)> <pkg> <name> <recv> (the callee the generator knows) / sinkmatrix -> per pair: s <model> <truth> <domain>
+     nodematrix                               -> per node: n <model> <truth>
+     apair <site index> <-|+pnf> <pkg> <name> <recv> <summary fn pkg> <name> <full> <hasSummary> / argmatrix -> per apair: a <model> <truth> <domain>
    fields: context package interface method receiver field type label kind value-match -/
-import Argot.Model.CodeId
-open Argot.Regex Argot.CodeId
+import Argot.Spec.Entry
+open Argot.Regex Argot.CodeId Argot.Entry
 
 def splitTabs (cs : List Char) : List (List Char) :=
   let rec go (cs : List Char) (cur : List Char) (acc : List (List Char)) : List (List Char) :=
@@ -37,9 +49,100 @@ def mkCid : List String → Option CodeId
 def outcomeChar : Outcome → Char
   | .val true => '1' | .val false => '0' | .panic => 'p' | .unsupported => 'u'
 
+
+def optS (s : String) : Option String := if s == "-" then none else some ((s.toList.drop 1) |> String.ofList)
+
+def parseKind : String → Option Kind
+  | "call" => some .call | "go" => some .go | "defer" => some .defer | _ => none
+
+def parseForm : String → Option Form
+  | "staticFn" => some .staticFn | "staticMethod" => some .staticMethod | "invoke" => some .invoke
+  | "funcValue" => some .funcValue | "boundMethod" => some .boundMethod | "methodExpr" => some .methodExpr
+  | "closureCall" => some .closureCall | "generic" => some .generic | _ => none
+
+def parseFns : List String → Option (List Fn)
+  | [] => some []
+  | p :: n :: r :: rest => (parseFns rest).map fun l => ({ pkgPath := p, name := n, recv := r } : Fn) :: l
+  | _ => none
+
+def parseAliases : List String → Option (List (Option String × String))
+  | [] => some []
+  | p :: n :: rest => (parseAliases rest).map fun l => (optS p, n) :: l
+  | _ => none
+
+def parseSite : List String → Option Site
+  | form :: kind :: parent :: instr :: reg :: cp :: cn :: cr   :: it :: adt :: wr :: _n :: rest => do
+    let f ← parseForm form
+    let k ← parseKind kind
+    let impls ← parseFns rest
+    some { form := f, kind := k, parent := parent, instr := instr, reg := reg,
+           callee := { pkgPath := cp, name := cn, recv := cr }, impls := impls, ifaceType := it,
+           addrTaken := adt == "1", wrapperName := wr }
+  | _ => none
+
+def parseFacts : List String → Option Facts
+  | kind :: parent :: instr :: inv :: vn :: vt :: mn :: cp :: sr :: _n :: rest => do
+    let k ← parseKind kind
+    let al ← parseAliases rest
+    some { kind := k, parent := parent, instr := instr, isInvoke := inv == "1", valueName := vn, valueType := vt,
+           methodName := mn, calleePkg := optS cp, sigRecv := sr, aliases := al }
+  | _ => none
+
+def parseTy : List String → Option Ty
+  | [] => none
+  | t :: rest =>
+    match t.splitOn ":" with
+    | ["named", p, n] => some (.named p n)
+    | ["basic", n] => some (.basic n)
+    | ["other"] => some .other
+    | ["ptr"] => (parseTy rest).map .pointer
+    | ["slice"] => (parseTy rest).map .slice
+    | ["chan"] => (parseTy rest).map .chan
+    | ["arr", n] => do let k ← n.toNat?; (parseTy rest).map (.array k)
+    | ["map", k] => (parseTy rest).map (.map k)
+    | _ => none
+
+def parseNK : String → Option NodeKind
+  | "fieldRead" => some .fieldRead | "alloc" => some .alloc | "fieldStore" => some .fieldStore
+  | "chanRecv" => some .chanRecv | _ => none
+
+def showOpt : Option String → String
+  | none => "-" | some s => "+" ++ s
+
+def escS (s : String) : String :=
+  String.ofList (s.toList.flatMap fun c =>
+    if c == '\\' then ['\\', '\\'] else if c == '\t' then ['\\', 't'] else if c == '\n' then ['\\', 'n']
+    else if c == '\r' then ['\\', 'r'] else [c])
+
+def showCid (c : CodeId) : String :=
+  "\t".intercalate ([c.ctx, c.pkg, c.iface, c.meth, c.recv, c.fld, c.typ, c.label, c.kind, c.vmatch].map escS)
+
+def showCids (cs : List CodeId) : String :=
+  "c" ++ String.join (cs.map fun c => "\t|\t" ++ showCid c)
+
+def showFacts (f : Facts) : String :=
+  let k := match f.kind with | .call => "call" | .go => "go" | .defer => "defer"
+  "\t".intercalate (([k, f.parent, f.instr, if f.isInvoke then "1" else "0", f.valueName, f.valueType, f.methodName,
+    showOpt f.calleePkg, f.sigRecv, toString f.aliases.length] ++ f.aliases.flatMap fun a => [showOpt a.1, a.2]).map escS)
+
+/-- first outcome that is not `false` when the predicate `ExistsCid [spec]` is applied to the identifiers in order -/
+def anyO (spec : CodeId) : List CodeId → Outcome
+  | [] => .val false
+  | c :: cs => match matchesO spec c with
+    | .val false => anyO spec cs
+    | o => o
+
+def bchar (b : Bool) : Char := if b then '1' else '0'
+
 structure St where
   specs : Array CodeId := #[]
   cids : Array CodeId := #[]
+  sites : Array (Option Site × Facts) := #[]
+  pairs : Array (Nat × Option String × Fn) := #[]
+  nodes : Array (NodeFacts × String) := #[]
+  apairs : Array (Nat × Option String × Fn × Option (Fn × String)) := #[]
+
+def lastFacts (st : St) : Option Facts := st.sites.back?.map (·.2)
 
 partial def loop (h : IO.FS.Stream) (st : St) : IO Unit := do
   let line ← h.getLine
@@ -63,6 +166,111 @@ partial def loop (h : IO.FS.Stream) (st : St) : IO Unit := do
     for s in st.specs do
       IO.println ("m " ++ String.ofList (st.cids.toList.map fun c => outcomeChar (matchesO s c)))
     loop h st
+  | "site" :: rest =>
+    match parseSite rest with
+    | some s => loop h { st with sites := st.sites.push (some s, factsOf s) }
+    | none => IO.println "bad-record site"; loop h st
+  | "rawsite" :: rest =>
+    match parseFacts rest with
+    | some f => loop h { st with sites := st.sites.push (none, f) }
+    | none => IO.println "bad-record rawsite"; loop h st
+  | "facts" :: rest =>
+    match parseFacts rest, lastFacts st with
+    | some f, some m => IO.println (if f = m then "facts ok" else "facts diff\t" ++ showFacts m)
+    | _, _ => IO.println "bad-record facts"
+    loop h st
+  | ["cids", "entry", wp] =>
+    match lastFacts st with
+    | some f => IO.println (showCids (entryCids (wp == "1") f))
+    | none => IO.println "bad-record cids"
+    loop h st
+  | ["cids", "sink", cp] =>
+    match lastFacts st with
+    | some f => IO.println (showCids (sinkCids f (optS cp)))
+    | none => IO.println "bad-record cids"
+    loop h st
+  | ["cids", "argat", idx, pnf, sp, sn, full, hs] =>
+    match idx.toNat?.bind (st.sites[·]?) with
+    | some (_, f) =>
+      IO.println (showCids (sinkCids f (optS pnf) ++ (if hs == "1" then [fnCid { pkgPath := sp, name := sn } full] else [])))
+    | none => IO.println "bad-record cids argat"
+    loop h st
+  | "node" :: nk :: parent :: field :: decl :: ty =>
+    match parseNK nk, parseTy ty with
+    | some k, some t => loop h { st with nodes := st.nodes.push ({ nk := k, parent := parent, ty := t, field := field }, decl) }
+    | _, _ => IO.println "bad-record node"; loop h st
+  | ["nodefacts", p, t] =>
+    match st.nodes.back? with
+    | some (n, _) =>
+      let m := eltTypePackage n.ty id
+      let r : Option (String × String) := (optS p).map fun p => (p, t)
+      IO.println (if m = r then "nodefacts ok" else s!"nodefacts diff {repr m}")
+    | none => IO.println "bad-record nodefacts"
+    loop h st
+  | ["cids", "node"] =>
+    match st.nodes.back? with
+    | some (n, _) => IO.println (showCids (nodeCids n))
+    | none => IO.println "bad-record cids"
+    loop h st
+  | ["entrymatrix"] =>
+    let specs := st.specs.toList
+    for (so, f) in st.sites do
+      let model := String.ofList (specs.map fun sp => outcomeChar (anyO sp (entryCids true f)))
+      match so with
+      | some s =>
+        let truth := String.ofList (specs.map fun sp => bchar (truth [sp] s))
+        let dom := String.ofList (specs.map fun sp => bchar (entryDomain [sp] s && specsOk [sp]))
+        IO.println s!"e {model} {truth} {dom}"
+      | none => IO.println s!"e {model} - -"
+    loop h st
+  | ["pair", idx, pnf, p, n, r] =>
+    match idx.toNat? with
+    | some i => loop h { st with pairs := st.pairs.push (i, optS pnf, { pkgPath := p, name := n, recv := r }) }
+    | none => IO.println "bad-record pair"; loop h st
+  | ["apair", idx, pnf, p, n, r, sp, sn, full, hs] =>
+    match idx.toNat? with
+    | some i =>
+      let sum : Option (Fn × String) := if hs == "1" then some ({ pkgPath := sp, name := sn }, full) else none
+      loop h { st with apairs := st.apairs.push (i, optS pnf, { pkgPath := p, name := n, recv := r }, sum) }
+    | none => IO.println "bad-record apair"; loop h st
+  | ["argmatrix"] =>
+    let specs := st.specs.toList
+    for (i, pnf, c, sum) in st.apairs do
+      match st.sites[i]? with
+      | some (so, f) =>
+        let cids := sinkCids f pnf ++ (match sum with | some (sf, full) => [fnCid sf full] | none => [])
+        let model := String.ofList (specs.map fun sp => outcomeChar (anyO sp cids))
+        match so with
+        | some s =>
+          let truth := String.ofList (specs.map fun sp => bchar (truthCallee [sp] s c))
+          let dom := String.ofList (specs.map fun sp => bchar (argDomain [sp] s c sum.isSome && specsOk [sp]))
+          IO.println s!"a {model} {truth} {dom}"
+        | none => IO.println s!"a {model} - -"
+      | none => IO.println "bad-record apair-index"
+    loop h st
+  | ["sinkmatrix"] =>
+    let specs := st.specs.toList
+    for (i, pnf, c) in st.pairs do
+      match st.sites[i]? with
+      | some (so, f) =>
+        let model := String.ofList (specs.map fun sp => outcomeChar (anyO sp (sinkCids f pnf)))
+        match so with
+        | some s =>
+          let truth := String.ofList (specs.map fun sp => bchar (truthCallee [sp] s c))
+          let dom := String.ofList (specs.map fun sp => bchar (sinkDomain s c && specsOk [sp]))
+          IO.println s!"s {model} {truth} {dom}"
+        | none => IO.println s!"s {model} - -"
+      | none => IO.println "bad-record pair-index"
+    loop h st
+  | ["nodematrix"] =>
+    let specs := st.specs.toList
+    for (n, decl) in st.nodes do
+      let model := String.ofList (specs.map fun sp => outcomeChar (anyO sp (nodeCids n)))
+      let truth := String.ofList (specs.map fun sp =>
+        bchar ((n.ty.decl.isSome) && matchB sp (nodeTruthCid n decl)))
+      IO.println s!"n {model} {truth}"
+    loop h st
+  | ["clearspecs"] => loop h { st with specs := #[] }
   | ["reset"] => loop h {}
   | [""] => loop h st
   | _ => IO.println "bad-record"; loop h st
